@@ -131,6 +131,14 @@ fn unreg(p: usize) {
     rt::handle_sub(p);
 }
 
+/// a zero-copy operation whose result is not at source address + offset: C05's "at the original address", and C07's address
+/// guarantee for clone / slice / split - some of these placements only go wrong when a promotion race is lost, which the sequential
+/// histories of C07's own engine never reach, so the C07 check runs a small job of this engine as well
+fn addr_report(kind: &'static str, detail: String) {
+    rt::report("C05", kind, detail.clone());
+    rt::report("C07", kind, detail);
+}
+
 fn check_read(b: &[u8], expect: &[u8], who: usize, what: &str) {
     if !b.is_empty() {
         rt::touch_read(b.as_ptr() as usize);
@@ -191,7 +199,7 @@ fn run_op(l: &mut Local, op: u8) {
                     let part = rt::bracket(|| m.split_to(1));
                     reg(part.as_ptr() as usize);
                     if part.as_ptr() as usize != p || m.as_ptr() as usize != p + 1 {
-                        rt::report("C05", "split-at-other-address", format!("thread {}: split_to(1) of a BytesMut at {:#x} gave part {:#x} / rest {:#x}", who, p, part.as_ptr() as usize, m.as_ptr() as usize));
+                        addr_report("split-at-other-address", format!("thread {}: split_to(1) of a BytesMut at {:#x} gave part {:#x} / rest {:#x}", who, p, part.as_ptr() as usize, m.as_ptr() as usize));
                     }
                     check_read(&part[..], &e[..1], who, "through the split-off part");
                     e.remove(0);
@@ -206,7 +214,7 @@ fn run_op(l: &mut Local, op: u8) {
                 let bp = base.as_ptr() as usize;
                 let c = rt::bracket(|| base.clone());
                 if c.as_ptr() as usize != bp {
-                    rt::report("C05", "clone-at-other-address", format!("thread {}: clone through &Bytes is at {:#x}, source at {:#x}", who, c.as_ptr() as usize, bp));
+                    addr_report("clone-at-other-address", format!("thread {}: clone through &Bytes is at {:#x}, source at {:#x}", who, c.as_ptr() as usize, bp));
                 }
                 reg(c.as_ptr() as usize);
                 l.hs.push(H::B(c, l.base_expect.clone()));
@@ -218,7 +226,7 @@ fn run_op(l: &mut Local, op: u8) {
                 let bp = b.as_ptr() as usize;
                 let c = rt::bracket(|| b.clone());
                 if !c.is_empty() && c.as_ptr() as usize != bp {
-                    rt::report("C05", "clone-at-other-address", format!("thread {}: clone is at {:#x}, source at {:#x}", who, c.as_ptr() as usize, bp));
+                    addr_report("clone-at-other-address", format!("thread {}: clone is at {:#x}, source at {:#x}", who, c.as_ptr() as usize, bp));
                 }
                 reg(c.as_ptr() as usize);
                 add = Some(H::B(c, e.clone()));
@@ -245,7 +253,7 @@ fn run_op(l: &mut Local, op: u8) {
                 if b.len() >= 2 {
                     let s = rt::bracket(|| b.slice(1..));
                     if s.as_ptr() as usize != b.as_ptr() as usize + 1 {
-                        rt::report("C05", "slice-at-other-address", format!("thread {}: slice(1..) is not at source+1", who));
+                        addr_report("slice-at-other-address", format!("thread {}: slice(1..) is not at source+1", who));
                     }
                     reg(s.as_ptr() as usize);
                     add = Some(H::B(s, e[1..].to_vec()));
